@@ -526,3 +526,61 @@ def concurrent_lines(t1, t2, plane, tol=1e-9):
         if sum(1 for x in bs if abs(float(x)) <= tol) >= 3:
             return True
     return False
+
+
+# ----------------------------------------------------------------- robust worker runs
+def run_cases(cm, pid, script, cases, tag, per=8, timeout=1800, jit=True, trace=False, notes=None):
+    """Run `cases` through harness/impl/<script>.py in parallel chunks (via cm.run_impl_parallel, i.e.
+    under the machine-wide slot throttle).  A chunk whose worker crashed or timed out is re-run ALONE with
+    twice the time limit; only if that fails too it is bisected down to the case(s) that make the worker
+    fail, so that a busy machine or a cold numba cache never turns into a verdict on a case.
+    Returns (results, coverage_reports); a case whose worker fails when run alone gets
+    dict(exc='PROCESS-CRASH'|'PROCESS-TIMEOUT', ...)."""
+    if not cases:
+        return [], []
+    nw = min(cm.NCPU, max(1, len(cases) // per))
+    chunks = [cases[i::nw] for i in range(nw)]
+    res = cm.run_impl_parallel(pid, script, [dict(cases=c, trace=trace) for c in chunks], timeout=timeout, jit=jit, tag=tag)
+    out = [None] * len(cases)
+    covs = []
+
+    def solve(ch, idxs, depth):
+        """re-run a failed chunk alone; bisect if it fails again"""
+        rr = cm.run_impl(pid, script, dict(cases=ch, trace=False), timeout=2 * timeout, jit=jit, tag=f"{tag}_retry{depth}_{idxs[0]}")
+        if rr["status"] == "ok":
+            for i, x in zip(idxs, rr["result"]["results"]):
+                out[i] = x
+            if notes is not None:
+                notes.append(f"worker chunk of {len(ch)} {script} cases failed under load and succeeded when re-run alone")
+            return
+        if len(ch) == 1:
+            out[idxs[0]] = dict(exc=f"PROCESS-{rr['status'].upper()}", exc_msg=f"rc={rr.get('rc')} {rr.get('log', '')[-300:]}")
+            return
+        h = len(ch) // 2
+        solve(ch[:h], idxs[:h], depth + 1)
+        solve(ch[h:], idxs[h:], depth + 1)
+
+    for w, (rr, ch) in enumerate(zip(res, chunks)):
+        idxs = list(range(w, len(cases), nw))
+        if rr["status"] == "ok":
+            for i, x in zip(idxs, rr["result"]["results"]):
+                out[i] = x
+            if rr["result"].get("coverage"):
+                covs.append(rr["result"]["coverage"])
+        else:
+            solve(ch, idxs, 0)
+    return out, covs
+
+
+def coq_eval(cm, pid, header, exprs, tag, per_file, timeout=1500):
+    """cm.coq_eval_lines, re-tried once with smaller files and a longer limit when a file timed out
+    (rc 124/137: a busy machine must not look like a broken proof or model)"""
+    if not exprs:
+        return []
+    try:
+        return cm.coq_eval_lines(pid, header, exprs, tag=tag, per_file=per_file, timeout=timeout)
+    except RuntimeError as e:
+        msg = str(e)
+        if "rc=124" in msg or "rc=137" in msg or "rc=-9" in msg:
+            return cm.coq_eval_lines(pid, header, exprs, tag=tag + "_retry", per_file=max(1, per_file // 4), timeout=2 * timeout)
+        raise
